@@ -258,8 +258,9 @@ def check(P, R):
             continue
         if isinstance(v, ast.Name):
             ds_ = rd.root_defs(rn, v.id)
-            if ds_ and all(d.value is not None and _deny_value(d.value) for d in ds_):
-                continue
+            nn_ = [d for d in ds_ if not (d.value is not None and isinstance(d.value, ast.Constant) and d.value.value is None)]
+            if nn_ and all(d.value is not None and _deny_value(d.value) for d in nn_):
+                continue          # (a `None` placeholder for "no refusal" is not an answer)
         okr = any(g.edge_dominates(n, lab, rn) or X.edge_dominates(n, lab, rn) for (n, t, lab) in guards)
         R.ob('C16.b', f, rn.ast, okr, text=f'`{short(rn.ast)}` lies behind the containment test', detail='' if okr else
              f'`{short(rn.ast)}` answers a request before the containment test was passed: a name outside the root gets this answer (it reveals whether the file exists, '
